@@ -1,3 +1,62 @@
-import Iauthd.Conf.Model
+import Iauthd.Conf.ProofsBridge
+import Iauthd.Conf.ProofsTyped
+import Iauthd.Conf.Counterexamples
 import Iauthd.Conf.Judge
-/- C16: headline statements (filled in below as the proofs land) -/
+/-
+  Property C16 — "Config text means what it says".
+
+  Formal reading.  A document (`Spec.Doc`: entries with repeated keys, strings over all
+  byte values except NUL, lists, host/service pairs, nested objects) has a canonical tree
+  (`Spec.canonTree`: later duplicates override earlier ones, repeated objects merge,
+  siblings in key order, the first spelling of a name is kept).  `Spec.render doc layout`
+  writes it down with a `Layout` choosing, per string, bare or quoted form and an escape
+  per byte (raw, \n-style, \xhh, \xHH, backslash), per gap one of the whitespace/comment
+  strings of `gapTable`, per entry a terminator, per list the parenthesised or the comma
+  form.  `parseFile` must read every such text back as the canonical tree.
+
+  Proved (kernel-checked, all documents, no size bound):
+    * `string_roundtrip`, `scan_roundtrip`: every escape choice decodes to the byte,
+      both passes of `conf_parse_string` agree; `parseString_at`: bare and quoted strings
+      at any position after any gap; `gapAny_ok`/`gapFlat_ok`: every gap is skipped;
+    * `pfold_canonTree`: the tree the parser accumulates is `canonTree`;
+    * `C16_partial`: `parseFile V (render doc layout)` = canonical tree for the layout
+      family "every entry terminated by `;`, a newline or both; lists parenthesised"
+      (`entsOk`) — for the pinned and for the repaired parser;
+    * `typed_spec` (`boolean_spec`, `integer_spec`, `interval_spec`, `volume_spec`):
+      the typed parsers deliver exactly what the property's reading prescribes and reject
+      what it says must be rejected; `typed_reject`/`typed_accept`: a rejected text
+      leaves the value in force, an accepted one replaces it.
+
+  Not proved (exact carve-out): layouts with a missing terminator before `}` / at end of
+  input and comma-form lists (where F10–F12 live).  For those the repaired parser's
+  behaviour is pinned down by `decide`-checked instances (Counterexamples.lean) and by the
+  exhaustive-window and random layout runs of the check.
+-/
+namespace Iauthd.Properties
+open Iauthd Iauthd.Conf
+
+theorem C16 (V : Variant) (doc : Spec.Doc) (lay : Spec.Layout)
+    (hfam : entsOk doc lay.entries = true) (hnn : EntsNN doc) :
+    ∃ t, parseFile V (Spec.render doc lay) = .ok t ∧ t.map toC = Spec.canonTree doc :=
+  C16_partial V doc lay hfam hnn
+
+theorem C16_typed (sub : SubTy) (v : Bytes) :
+    (∀ n, Spec.specTyped sub.code v = .value n → parseTyped true sub v = (n, true)) ∧
+    (Spec.specTyped sub.code v = .reject → (parseTyped true sub v).2 = false) :=
+  typed_spec sub v
+
+/-- non-vacuity: a document with all four node kinds, a repeated key and a nested object
+    under a layout of the family; and typed texts of every subtype -/
+example :
+    entsOk [(Cex.s "a", .str (Cex.s "x y")), (Cex.s "b", .list [Cex.s "p", Cex.s "q"]), (Cex.s "c", .pair (Cex.s "h") (Cex.s "80")),
+            (Cex.s "o", .obj [(Cex.s "a", .str (Cex.s "1"))]), (Cex.s "A", .str (Cex.s "z"))]
+      [(2, ⟨true, []⟩, 1, .str ⟨false, [.hex, .raw, .bsl]⟩, 4, .nl), (0, ⟨false, []⟩, 0, .list true 1 [] 5, 0, .both),
+       (5, ⟨true, []⟩, 3, .pair ⟨true, []⟩ 0 ⟨false, []⟩, 1, .semi),
+       (0, ⟨true, []⟩, 0, .obj 2 [(1, ⟨true, []⟩, 1, .str ⟨true, []⟩, 0, .semi)] 9, 0, .nl),
+       (0, ⟨true, []⟩, 1, .str ⟨true, []⟩, 0, .semi)] = true := by decide +kernel
+
+example : Spec.specTyped 4 (Cex.s "1y2d03:04:05") = .value 31719845 ∧ Spec.specTyped 5 (Cex.s "1G2M3K4") = .value 1075842052 ∧
+    Spec.specTyped 2 (Cex.s "0x1f") = .value 31 ∧ Spec.specTyped 1 (Cex.s "maybe") = .reject ∧
+    Spec.specTyped 5 (Cex.s "12q") = .reject := by decide +kernel
+
+end Iauthd.Properties
